@@ -70,6 +70,13 @@ type c16Val struct {
 	Headers []int   `json:"headers"`
 	Links   []int   `json:"links"`
 	Items   []int   `json:"items"` // path item ids of a callback
+	Pex     []int   `json:"pex"`   // Examples of a parameter / header: resolved by the loader, not visited by InternalizeRefs
+	Dmap    []c16DM `json:"dmap"`  // discriminator mapping entries that select a oneOf alternative by its $ref text
+}
+
+type c16DM struct {
+	T string `json:"t"`
+	C int    `json:"c"`
 }
 
 type c16Named struct {
@@ -130,8 +137,22 @@ func (x *c16X) newVal(ptr any, t string) (int, bool) {
 	}
 	id := len(x.h.Vals)
 	x.valID[ptr] = id
-	x.h.Vals = append(x.h.Vals, c16Val{T: t, Schema: -1, Ch: []int{}, Content: []c16MT{}, Headers: []int{}, Links: []int{}, Items: []int{}})
+	x.h.Vals = append(x.h.Vals, c16Val{T: t, Schema: -1, Ch: []int{}, Content: []c16MT{}, Headers: []int{}, Links: []int{}, Items: []int{}, Pex: []int{}, Dmap: []c16DM{}})
 	return id, true
+}
+
+func (x *c16X) addComp(k, n string, c int) {
+	if c >= 0 {
+		x.h.Comps[k] = append(x.h.Comps[k], c16Named{n, c})
+	}
+}
+
+// c16App appends a cell / path item id; nil entries (id -1) are skipped, as the descent skips them
+func c16App(l []int, id int) []int {
+	if id < 0 {
+		return l
+	}
+	return append(l, id)
 }
 
 func (x *c16X) schemaCell(s *openapi3.SchemaRef) int {
@@ -172,6 +193,17 @@ func (x *c16X) schemaVal(s *openapi3.Schema) int {
 	add(s.AdditionalProperties.Schema)
 	add(s.Items)
 	x.h.Vals[id].Ch = ch
+	if d := s.Discriminator; d != nil {
+		dm := []c16DM{}
+		for _, k := range c16_sortedKeys(d.Mapping) {
+			for _, r := range s.OneOf {
+				if r != nil && d.Mapping[k] != "" && r.Ref == d.Mapping[k] {
+					dm = append(dm, c16DM{d.Mapping[k], x.schemaCell(r)})
+				}
+			}
+		}
+		x.h.Vals[id].Dmap = dm
+	}
 	return id
 }
 
@@ -184,17 +216,19 @@ func (x *c16X) content(c openapi3.Content) []c16MT {
 		}
 		m := c16MT{Schema: x.schemaCell(mt.Schema), Ex: []int{}, Enc: [][]int{}}
 		for _, en := range c16_sortedKeys(mt.Examples) {
-			m.Ex = append(m.Ex, x.exampleCell(mt.Examples[en]))
+			m.Ex = c16App(m.Ex, x.exampleCell(mt.Examples[en]))
 		}
 		for _, en := range c16_sortedKeys(mt.Encoding) {
 			e := mt.Encoding[en]
 			hs := []int{}
 			if e != nil {
 				for _, hn := range c16_sortedKeys(e.Headers) {
-					hs = append(hs, x.headerCell(e.Headers[hn]))
+					hs = c16App(hs, x.headerCell(e.Headers[hn]))
 				}
 			}
-			m.Enc = append(m.Enc, hs)
+			if e != nil {
+				m.Enc = append(m.Enc, hs)
+			}
 		}
 		out = append(out, m)
 	}
@@ -232,6 +266,11 @@ func (x *c16X) secCell(e *openapi3.SecuritySchemeRef) int {
 func (x *c16X) paramFill(id int, p *openapi3.Parameter) {
 	x.h.Vals[id].Schema = x.schemaCell(p.Schema)
 	x.h.Vals[id].Content = x.content(p.Content)
+	pex := []int{}
+	for _, n := range c16_sortedKeys(p.Examples) {
+		pex = c16App(pex, x.exampleCell(p.Examples[n]))
+	}
+	x.h.Vals[id].Pex = pex
 }
 
 func (x *c16X) headerCell(h *openapi3.HeaderRef) int {
@@ -290,13 +329,13 @@ func (x *c16X) responseCell(r *openapi3.ResponseRef) int {
 		if fv {
 			hs := []int{}
 			for _, n := range c16_sortedKeys(r.Value.Headers) {
-				hs = append(hs, x.headerCell(r.Value.Headers[n]))
+				hs = c16App(hs, x.headerCell(r.Value.Headers[n]))
 			}
 			x.h.Vals[v].Headers = hs
 			x.h.Vals[v].Content = x.content(r.Value.Content)
 			ls := []int{}
 			for _, n := range c16_sortedKeys(r.Value.Links) {
-				ls = append(ls, x.linkCell(r.Value.Links[n]))
+				ls = c16App(ls, x.linkCell(r.Value.Links[n]))
 			}
 			x.h.Vals[v].Links = ls
 		}
@@ -316,7 +355,7 @@ func (x *c16X) callbackCell(c *openapi3.CallbackRef) int {
 			m := c.Value.Map()
 			items := []int{}
 			for _, n := range c16_sortedKeys(m) {
-				items = append(items, x.pathItem(m[n]))
+				items = c16App(items, x.pathItem(m[n]))
 			}
 			x.h.Vals[v].Items = items
 		}
@@ -337,7 +376,7 @@ func (x *c16X) pathItem(pi *openapi3.PathItem) int {
 	x.piPtr = append(x.piPtr, pi)
 	ps := []int{}
 	for _, p := range pi.Parameters {
-		ps = append(ps, x.paramCell(p))
+		ps = c16App(ps, x.paramCell(p))
 	}
 	ops := []c16Op{}
 	om := pi.Operations()
@@ -345,16 +384,16 @@ func (x *c16X) pathItem(pi *openapi3.PathItem) int {
 		op := om[n]
 		o := c16Op{RB: x.reqBodyCell(op.RequestBody), Cbs: []int{}, Resps: []int{}, Params: []int{}}
 		for _, cn := range c16_sortedKeys(op.Callbacks) {
-			o.Cbs = append(o.Cbs, x.callbackCell(op.Callbacks[cn]))
+			o.Cbs = c16App(o.Cbs, x.callbackCell(op.Callbacks[cn]))
 		}
 		if op.Responses != nil {
 			rm := op.Responses.Map()
 			for _, rn := range c16_sortedKeys(rm) {
-				o.Resps = append(o.Resps, x.responseCell(rm[rn]))
+				o.Resps = c16App(o.Resps, x.responseCell(rm[rn]))
 			}
 		}
 		for _, p := range op.Parameters {
-			o.Params = append(o.Params, x.paramCell(p))
+			o.Params = c16App(o.Params, x.paramCell(p))
 		}
 		ops = append(ops, o)
 	}
@@ -374,37 +413,37 @@ func c16Extract(doc *openapi3.T, root string, hasURL bool) *c16X {
 	if c := doc.Components; c != nil {
 		x.h.HasComp = true
 		for _, n := range c16_sortedKeys(c.Schemas) {
-			x.h.Comps["schemas"] = append(x.h.Comps["schemas"], c16Named{n, x.schemaCell(c.Schemas[n])})
+			x.addComp("schemas", n, x.schemaCell(c.Schemas[n]))
 		}
 		for _, n := range c16_sortedKeys(c.Parameters) {
-			x.h.Comps["parameters"] = append(x.h.Comps["parameters"], c16Named{n, x.paramCell(c.Parameters[n])})
+			x.addComp("parameters", n, x.paramCell(c.Parameters[n]))
 		}
 		for _, n := range c16_sortedKeys(c.Headers) {
-			x.h.Comps["headers"] = append(x.h.Comps["headers"], c16Named{n, x.headerCell(c.Headers[n])})
+			x.addComp("headers", n, x.headerCell(c.Headers[n]))
 		}
 		for _, n := range c16_sortedKeys(c.RequestBodies) {
-			x.h.Comps["requestBodies"] = append(x.h.Comps["requestBodies"], c16Named{n, x.reqBodyCell(c.RequestBodies[n])})
+			x.addComp("requestBodies", n, x.reqBodyCell(c.RequestBodies[n]))
 		}
 		for _, n := range c16_sortedKeys(c.Responses) {
-			x.h.Comps["responses"] = append(x.h.Comps["responses"], c16Named{n, x.responseCell(c.Responses[n])})
+			x.addComp("responses", n, x.responseCell(c.Responses[n]))
 		}
 		for _, n := range c16_sortedKeys(c.SecuritySchemes) {
-			x.h.Comps["securitySchemes"] = append(x.h.Comps["securitySchemes"], c16Named{n, x.secCell(c.SecuritySchemes[n])})
+			x.addComp("securitySchemes", n, x.secCell(c.SecuritySchemes[n]))
 		}
 		for _, n := range c16_sortedKeys(c.Examples) {
-			x.h.Comps["examples"] = append(x.h.Comps["examples"], c16Named{n, x.exampleCell(c.Examples[n])})
+			x.addComp("examples", n, x.exampleCell(c.Examples[n]))
 		}
 		for _, n := range c16_sortedKeys(c.Links) {
-			x.h.Comps["links"] = append(x.h.Comps["links"], c16Named{n, x.linkCell(c.Links[n])})
+			x.addComp("links", n, x.linkCell(c.Links[n]))
 		}
 		for _, n := range c16_sortedKeys(c.Callbacks) {
-			x.h.Comps["callbacks"] = append(x.h.Comps["callbacks"], c16Named{n, x.callbackCell(c.Callbacks[n])})
+			x.addComp("callbacks", n, x.callbackCell(c.Callbacks[n]))
 		}
 	}
 	if doc.Paths != nil {
 		m := doc.Paths.Map()
 		for _, n := range c16_sortedKeys(m) {
-			x.h.Paths = append(x.h.Paths, x.pathItem(m[n]))
+			x.h.Paths = c16App(x.h.Paths, x.pathItem(m[n]))
 		}
 	}
 	// content classes
@@ -431,7 +470,24 @@ var (
 	tResponses = reflect.TypeOf(&openapi3.Responses{})
 	tCallback  = reflect.TypeOf(&openapi3.Callback{})
 	tPathItem  = reflect.TypeOf(openapi3.PathItem{})
+	tSchema    = reflect.TypeOf(openapi3.Schema{})
 )
+
+// c16MapSel: which oneOf alternatives each discriminator mapping key selects (visitXOFOperations compares the mapping
+// value with the alternative's $ref text). The texts themselves are not content: only what they select is.
+func c16MapSel(s *openapi3.Schema) any {
+	out := map[string]any{"propertyName": s.Discriminator.PropertyName}
+	for k, m := range s.Discriminator.Mapping {
+		sel := []any{}
+		for i, r := range s.OneOf {
+			if r != nil && r.Ref == m {
+				sel = append(sel, i)
+			}
+		}
+		out["selects "+k] = sel
+	}
+	return out
+}
 
 // c16Deep is the content a position resolves to: every reference is replaced by the content of its
 // resolved Value, `hops` references deep (beyond that: "…"); $ref texts, origins and component names
@@ -492,6 +548,12 @@ func c16Deep(v reflect.Value, hops int) any {
 				continue
 			}
 			if t == tPathItem && f.Name == "Ref" {
+				continue
+			}
+			if t == tSchema && f.Name == "Discriminator" {
+				if sc := v.Interface().(openapi3.Schema); sc.Discriminator != nil {
+					out["Discriminator"] = c16MapSel(&sc)
+				}
 				continue
 			}
 			fv := v.Field(i)
@@ -710,6 +772,44 @@ func c16Verdicts(doc *openapi3.T) []string {
 	return out
 }
 
+// c16Cyclic: does the (internalised) Go object graph contain a cycle of path items and callbacks none of which is
+// serialised as a $ref?
+func c16Cyclic(x *c16X) bool {
+	onStack := map[*openapi3.PathItem]bool{}
+	done := map[*openapi3.PathItem]bool{}
+	var visit func(pi *openapi3.PathItem) bool
+	visit = func(pi *openapi3.PathItem) bool {
+		if pi == nil || pi.Ref != "" || done[pi] {
+			return false
+		}
+		if onStack[pi] {
+			return true
+		}
+		onStack[pi] = true
+		for _, op := range pi.Operations() {
+			for _, cb := range op.Callbacks {
+				if cb == nil || cb.Ref != "" || cb.Value == nil {
+					continue
+				}
+				for _, q := range cb.Value.Map() {
+					if visit(q) {
+						return true
+					}
+				}
+			}
+		}
+		onStack[pi] = false
+		done[pi] = true
+		return false
+	}
+	for _, pi := range x.piPtr {
+		if visit(pi) {
+			return true
+		}
+	}
+	return false
+}
+
 func c16ReadRefs(x *c16X) []string {
 	out := make([]string, len(x.cellPtr))
 	for i, p := range x.cellPtr {
@@ -769,6 +869,14 @@ func runC16(c hx.Case) any {
 	}
 	obs["pirefs"] = pirefs
 	obs["comps"] = c16CompNames(doc)
+	if c16Cyclic(x) {
+		// a path item written out in full that is reached again through callbacks written out in full: the document is
+		// an infinite tree; MarshalJSON would overflow the stack (fatal, not recoverable)
+		obs["kind"] = "cyclic"
+		obs["cyclic"] = true
+		return obs
+	}
+	obs["cyclic"] = false
 	var data []byte
 	func() {
 		defer func() {
@@ -858,15 +966,50 @@ type c16B struct {
 	whole map[string][]string    // kind -> whole-file targets created
 	comps map[string][][2]string // kind -> (doc, name) components created
 	over  bool                   // tape exhausted at least once
+	hasX       bool              // the root has an inline path item /x
 	pathSchema bool              // the root has /y with an inline response schema that can be referenced by pointer
 	inner   []string             // whole-file schema targets that have a referable inner element
 	overN   int                  // arity of the first decision asked after the end of the tape
 	top     bool                 // the slot being filled is a root component
 	noReuse int                  // >0 inside allOf: no reference to possibly unfinished ancestors (unguarded recursion is C10's finding #6)
+	force   string               // focused layouts: the feature every eligible position gets
+	focus   bool                 // focused layouts: only decisions taken while `live` read the tape, all others are 0
+	live    bool
+	used    bool                 // the forced feature was built at least once
+}
+
+// c16Features: positions and shapes beyond the basic builder. In the random stream each is switched on now and then;
+// the focused family enumerates, for each, all decisions of the reference placed there.
+var c16Features = []string{"pex", "hex", "hcontent", "enc", "disc", "nullmt", "pichain", "pielem", "cbcycle", "toplink", "topexample", "topsec", "topheader", "topresponse"}
+
+func (b *c16B) want(f string, oneIn int) bool {
+	if b.focus {
+		if b.force == f {
+			b.used = true
+			return true
+		}
+		return false
+	}
+	if b.r != nil {
+		return b.r.Intn(oneIn) == 0
+	}
+	return false
+}
+
+// liveSlot fills the position the focused layout is about: its decisions are the ones enumerated
+func (b *c16B) liveSlot(kind, file string, depth int) any {
+	old := b.live
+	b.live = true
+	v := b.slot(kind, file, depth)
+	b.live = old
+	return v
 }
 
 func (b *c16B) choose(n int) int {
 	if n <= 1 {
+		return 0
+	}
+	if b.focus && !b.live {
 		return 0
 	}
 	if b.r != nil {
@@ -1082,6 +1225,20 @@ func (b *c16B) val(kind, file string, depth int) any {
 	n := b.next()
 	switch kind {
 	case "schemas":
+		if depth > 0 && b.want("disc", 10) {
+			b.noReuse++
+			a1, a2 := b.liveSlot("schemas", file, depth), b.liveSlot("schemas", file, depth)
+			b.noReuse--
+			mapping := map[string]any{}
+			for i, a := range []any{a1, a2} {
+				if m, ok := a.(map[string]any); ok {
+					if r, ok := m["$ref"].(string); ok {
+						mapping[[]string{"a", "b"}[i]] = r
+					}
+				}
+			}
+			return map[string]any{"oneOf": []any{a1, a2}, "discriminator": map[string]any{"propertyName": "kind", "mapping": mapping}}
+		}
 		shape := 0
 		if depth > 0 {
 			shape = b.choose(8)
@@ -1131,23 +1288,52 @@ func (b *c16B) val(kind, file string, depth int) any {
 			return map[string]any{"type": "string", "maxLength": n}
 		}
 	case "parameters":
+		var p map[string]any
 		if depth > 0 && b.choose(3) == 1 {
-			return map[string]any{"name": fmt.Sprint("p", n), "in": "query", "content": map[string]any{"application/json": map[string]any{"schema": b.slot("schemas", file, depth)}}}
+			p = map[string]any{"name": fmt.Sprint("p", n), "in": "query", "content": map[string]any{"application/json": map[string]any{"schema": b.slot("schemas", file, depth)}}}
+		} else {
+			p = map[string]any{"name": fmt.Sprint("p", n), "in": "query", "schema": b.slot("schemas", file, depth)}
 		}
-		return map[string]any{"name": fmt.Sprint("p", n), "in": "query", "schema": b.slot("schemas", file, depth)}
+		if depth > 0 && b.want("pex", 5) {
+			p["examples"] = map[string]any{"e": b.liveSlot("examples", file, depth)}
+		}
+		return p
 	case "headers":
-		return map[string]any{"description": fmt.Sprint("h", n), "schema": b.slot("schemas", file, depth)}
+		var hd map[string]any
+		if depth > 0 && b.want("hcontent", 6) {
+			hd = map[string]any{"description": fmt.Sprint("h", n), "content": map[string]any{"application/json": map[string]any{"schema": b.liveSlot("schemas", file, depth)}}}
+		} else {
+			hd = map[string]any{"description": fmt.Sprint("h", n), "schema": b.slot("schemas", file, depth)}
+		}
+		if depth > 0 && b.want("hex", 5) {
+			hd["examples"] = map[string]any{"e": b.liveSlot("examples", file, depth)}
+		}
+		return hd
 	case "requestBodies":
 		mt := map[string]any{"schema": b.slot("schemas", file, depth)}
 		if depth > 0 && b.choose(2) == 1 {
 			mt["examples"] = map[string]any{"e": b.slot("examples", file, depth)}
 		}
-		return map[string]any{"description": fmt.Sprint("b", n), "content": map[string]any{"application/json": mt}}
+		content := map[string]any{"application/json": mt}
+		if depth > 0 && b.want("enc", 5) {
+			content["multipart/form-data"] = map[string]any{"schema": map[string]any{"type": "object", "properties": map[string]any{"f": map[string]any{"type": "string"}}},
+				"encoding": map[string]any{"f": map[string]any{"headers": map[string]any{"H": b.liveSlot("headers", file, depth)}}}}
+		}
+		if depth > 0 && b.want("nullmt", 12) {
+			// null entries that load and validate (b68fdca): a null media type, a null encoding
+			content["text/null"] = nil
+			content["application/x-www-form-urlencoded"] = map[string]any{"schema": map[string]any{"type": "object", "properties": map[string]any{"g": b.liveSlot("schemas", file, depth)}},
+				"encoding": map[string]any{"g": nil}}
+		}
+		return map[string]any{"description": fmt.Sprint("b", n), "content": content}
 	case "responses":
 		r := map[string]any{"description": fmt.Sprint("r", n)}
 		parts := 0
 		if depth > 0 {
 			parts = b.choose(8)
+			if b.focus && (b.force == "hex" || b.force == "hcontent") {
+				parts |= 2
+			}
 		}
 		if parts&1 != 0 || depth == 0 {
 			r["content"] = map[string]any{"application/json": map[string]any{"schema": b.slot("schemas", file, depth)}}
@@ -1166,11 +1352,25 @@ func (b *c16B) val(kind, file string, depth int) any {
 	case "securitySchemes":
 		return map[string]any{"type": "http", "scheme": "basic", "description": fmt.Sprint("s", n)}
 	case "callbacks":
+		if file == b.root && b.hasX && b.want("cbcycle", 10) {
+			// the callback leads back to the path item whose operation carries it (1c81ad5)
+			return map[string]any{"{$request.body#/u}": map[string]any{"$ref": "#/paths/~1x"}}
+		}
 		return map[string]any{"{$request.body#/u}": b.val("pathItem", file, depth)}
 	case "pathItem":
 		op := map[string]any{"responses": map[string]any{"200": b.slot("responses", file, depth)}}
 		if depth > 0 {
 			parts := b.choose(8)
+			if b.focus {
+				switch b.force {
+				case "pex":
+					parts |= 2
+				case "enc", "nullmt":
+					parts |= 1
+				case "cbcycle":
+					parts |= 4
+				}
+			}
 			if parts&1 != 0 {
 				op["requestBody"] = b.slot("requestBodies", file, depth)
 			}
@@ -1198,7 +1398,13 @@ func (b *c16B) build(depth int) {
 	b.files = map[string]any{}
 	b.whole = map[string][]string{}
 	b.comps = map[string][][2]string{}
-	b.root = c16Roots[b.choose(len(c16Roots))]
+	if b.focus {
+		b.live = true
+		b.root = []string{"openapi.json", "/r/a/openapi.json", "a/openapi.json"}[b.choose(3)]
+		b.live = false
+	} else {
+		b.root = c16Roots[b.choose(len(c16Roots))]
+	}
 	rootDoc := map[string]any{"openapi": "3.0.0", "info": map[string]any{"title": "t", "version": "1"}, "components": map[string]any{}}
 	b.files[b.root] = rootDoc
 	b.defs = []string{b.root}
@@ -1214,6 +1420,9 @@ func (b *c16B) build(depth int) {
 	if b.r != nil {
 		nTop = b.r.Intn(4)
 	}
+	if b.focus {
+		nTop = 0
+	}
 	for i := 0; i < nTop; i++ {
 		k := c16Kinds[b.choose(len(c16Kinds))]
 		name := fmt.Sprintf("T%d", b.next())
@@ -1222,10 +1431,35 @@ func (b *c16B) build(depth int) {
 		b.setComp(b.root, k, name, b.slot(k, b.root, depth))
 		b.top = false
 	}
-	switch b.choose(3) {
-	case 0:
+	if k, ok := map[string]string{"toplink": "links", "topexample": "examples", "topsec": "securitySchemes", "topheader": "headers", "topresponse": "responses"}[b.force]; ok && b.focus {
+		name := fmt.Sprintf("T%d", b.next())
+		b.setComp(b.root, k, name, map[string]any{"$ref": "#/pending"})
+		b.top = true
+		b.setComp(b.root, k, name, b.liveSlot(k, b.root, depth))
+		b.top = false
+		b.used = true
+	}
+	if b.focus {
+		b.live = true
+	}
+	pathStyle := b.choose(3)
+	b.live = false
+	switch {
+	case b.want("pichain", 12):
+		// a path item that refers to a path item that is itself a reference (9b25d89); /w sorts before /x before /z
+		paths["/z"] = b.val("pathItem", b.root, depth)
+		paths["/x"] = map[string]any{"$ref": "#/paths/~1z"}
+		paths["/w"] = map[string]any{"$ref": "#/paths/~1x"}
+	case b.want("pielem", 12):
+		// a path item given by an element reference into the paths section of another document
+		docp := b.dirOfRoot() + "defs.json"
+		d := b.doc(docp)
+		d["paths"] = map[string]any{"/p": b.val("pathItem", docp, depth)}
+		paths["/x"] = map[string]any{"$ref": b.spell(b.root, docp) + "#/paths/~1p"}
+	case pathStyle == 0:
+		b.hasX = true
 		paths["/x"] = b.val("pathItem", b.root, depth)
-	case 1:
+	case pathStyle == 1:
 		target := b.dirOfRoot() + "paths/x.json"
 		b.files[target] = b.val("pathItem", target, depth)
 		paths["/x"] = map[string]any{"$ref": b.spell(b.root, target)}
@@ -1244,7 +1478,7 @@ func c16MkCase(root string, files map[string]any) (hx.Case, error) {
 	h.Valid = doc.Validate(context.Background(), openapi3.DisableExamplesValidation()) == nil
 	c["heap"] = normalizeJSON(h)
 	if c16CallbackCycle(h) {
-		c["iso"] = true // InternalizeRefs recurses through callbacks without a visited set: evaluate in a child process
+		c["iso"] = true // a cycle through callbacks: evaluated in a child process, so that a recursion without end is observed as a crash
 	}
 	return c, nil
 }
@@ -1359,6 +1593,44 @@ func c16Witnesses() []c16Named2 {
 			"openapi.json": c16RootDoc(c16_jm("callbacks", c16_jm("T1", jref("sub/defs2.json#/components/callbacks/N2"))), nil),
 			"sub/defs2.json": c16_jm("components", c16_jm("callbacks", c16_jm("N2", c16_jm("{$request.body#/u}", c16_jm("post", c16_jm("parameters", []any{c16_jm("in", "query", "name", "p7", "schema", jref("#/components/schemas/N8"))},
 				"responses", c16_jm("200", c16_jm("description", "r")))))), "schemas", c16_jm("N8", c16_jm("type", "integer", "maximum", 9))))}},
+		{"param-example-external", "openapi.json", map[string]any{
+			"openapi.json": c16RootDoc(c16_jm(), c16_jm("/x", c16_jm("post", c16_jm("parameters", []any{c16_jm("name", "p", "in", "query", "schema", c16_jm("type", "integer"), "examples", c16_jm("e", jref("ex.json")))},
+				"responses", c16_jm("200", c16_jm("description", "r")))))),
+			"ex.json": c16_jm("value", 5)}},
+		{"header-example-in-imported-file", "openapi.json", map[string]any{
+			"openapi.json": c16RootDoc(c16_jm(), c16Op200(c16_jm("description", "r", "headers", c16_jm("H", jref("defs.json#/components/headers/HD"))))),
+			"defs.json": c16_jm("components", c16_jm("headers", c16_jm("HD", c16_jm("schema", c16_jm("type", "integer"), "examples", c16_jm("e", jref("#/components/examples/E")))),
+				"examples", c16_jm("E", c16_jm("value", 5))))}},
+		{"discriminator-mapping-external", "openapi.json", map[string]any{
+			"openapi.json": c16RootDoc(c16_jm("schemas", c16_jm("Pet", c16_jm("oneOf", []any{jref("dog.json"), jref("cat.json")}, "discriminator", c16_jm("propertyName", "kind", "mapping", c16_jm("dog", "dog.json", "cat", "cat.json"))))), nil),
+			"dog.json":     c16_jm("type", "object", "required", []any{"kind", "bark"}, "properties", c16_jm("kind", c16_jm("type", "string"), "bark", c16_jm("type", "boolean"))),
+			"cat.json":     c16_jm("type", "object", "required", []any{"kind"}, "properties", c16_jm("kind", c16_jm("type", "string"), "lives", c16_jm("type", "integer")))}},
+		{"enc-header-external", "openapi.json", map[string]any{
+			"openapi.json": c16RootDoc(c16_jm(), c16_jm("/x", c16_jm("post", c16_jm("requestBody", c16_jm("content", c16_jm("multipart/form-data", c16_jm("schema", c16_jm("type", "object", "properties", c16_jm("f", jstrS(9))),
+				"encoding", c16_jm("f", c16_jm("headers", c16_jm("H", jref("h.json"))))))), "responses", c16_jm("200", c16_jm("description", "ok")))))),
+			"h.json": c16_jm("schema", c16_jm("type", "integer", "maximum", 9))}},
+		{"comp-link-external", "openapi.json", map[string]any{
+			"openapi.json": c16RootDoc(c16_jm("links", c16_jm("L", jref("l.json"))), nil),
+			"l.json":       c16_jm("operationId", "opx", "description", "l1")}},
+		{"path-item-chain", "openapi.json", map[string]any{
+			"openapi.json": c16RootDoc(c16_jm(), c16_jm("/a", jref("#/paths/~1b"), "/b", jref("#/paths/~1c"), "/c", c16_jm("get", c16_jm("responses", c16_jm("200", jref("r.json")))))),
+			"r.json":       c16_jm("description", "r1")}},
+		{"callback-cycle-via-paths", "openapi.json", map[string]any{
+			"openapi.json": c16RootDoc(c16_jm("callbacks", c16_jm("C", c16_jm("/cb", jref("#/paths/~1a")))),
+				c16_jm("/a", c16_jm("post", c16_jm("responses", c16_jm("200", c16_jm("description", "r")), "callbacks", c16_jm("c", jref("#/components/callbacks/C"))))))}},
+		{"inline-callback-cycle", "openapi.json", map[string]any{
+			"openapi.json": c16RootDoc(c16_jm(), c16_jm("/x", c16_jm("post", c16_jm("responses", c16_jm("200", c16_jm("description", "r")),
+				"callbacks", c16_jm("cb", c16_jm("{$request.body#/u}", jref("#/paths/~1x")))))))}},
+		{"loader-unresolved-below-path-item-element-ref", "openapi.json", map[string]any{
+			"openapi.json": c16RootDoc(c16_jm("links", c16_jm("L8", jref("defs.json#/components/links/N9"))), c16_jm("/x", jref("defs.json#/paths/~1p"))),
+			"defs.json": c16_jm("components", c16_jm("links", c16_jm("N9", c16_jm("description", "l10", "operationId", "opx"))),
+				"paths", c16_jm("/p", c16_jm("post", c16_jm("responses", c16_jm("200", jref("res6.json")))))),
+			"res6.json": c16_jm("description", "r7", "links", c16_jm("l", jref("openapi.json#/components/links/L8")))}},
+		{"loader-unresolved-external-text-left", "openapi.json", map[string]any{
+			"openapi.json": c16RootDoc(c16_jm("examples", c16_jm("L20", jref("defs.json#/components/examples/N21"))), c16_jm("/x", jref("defs.json#/paths/~1p"))),
+			"defs.json": c16_jm("components", c16_jm("examples", c16_jm("N21", c16_jm("value", 22))),
+				"paths", c16_jm("/p", c16_jm("post", c16_jm("parameters", []any{jref("sub/par.json")}, "responses", c16_jm("200", c16_jm("description", "r")))))),
+			"sub/par.json": c16_jm("name", "p", "in", "query", "schema", c16_jm("type", "integer"), "examples", c16_jm("e", jref("../openapi.json#/components/examples/L20")))}},
 		{"callback-cycle", "openapi.json", map[string]any{
 			"openapi.json": c16RootDoc(c16_jm("callbacks", c16_jm("cb", c16_jm("{$request.body#/u}", c16_jm("post", c16_jm("responses", c16_jm("200", c16_jm("description", "r")), "callbacks", c16_jm("again", jref("#/components/callbacks/cb"))))))), nil)}},
 	}
@@ -1371,9 +1643,13 @@ func init() {
 		ID: "C16",
 		Rule: "multi-file layouts built by a decision-driven builder (root at 5 relative/absolute locations; every component kind; positions in components, paths, " +
 			"whole-file path items, callbacks; reference styles: inline, whole-file, element into definitions documents, component of the same document, back into the root; " +
-			"re-use of existing targets; three spellings of the same relative path; cycles): ALL decision tapes up to a fixed length (exhaustive), hand-written witness layouts, " +
-			"then a seeded random stream of deeper layouts. Each is loaded with external refs allowed, internalised, marshalled, reloaded with external refs disallowed and compared. " +
-			"Non-trivial = the model reports at least one branch (an external reference added, an existing name re-used, root-component match, parent-is-external propagation, visited-set hit, …).",
+			"re-use of existing targets; three spellings of the same relative path; cycles): ALL decision tapes up to a fixed length (exhaustive); a FOCUSED family per feature " +
+			"(examples of parameters / headers, header content, encoding headers, discriminator mapping over oneOf, null media type / encoding entries, path item chains '#/paths/..', " +
+			"path item by element reference into another document, callback leading back to its path item, whole-kind root components for links / examples / securitySchemes / headers / responses): " +
+			"all decision tapes of the reference placed at that position; hand-written witness layouts; then a seeded random stream of deeper layouts in which every feature is switched on now and then. " +
+			"Each is loaded with external refs allowed, internalised, checked for an infinite tree, marshalled, reloaded with external refs disallowed and compared. " +
+			"Non-trivial = the model reports at least one branch (an external reference added, an existing name re-used, root-component match, parent-is-external propagation, visited-set hit, …); " +
+			"the has.* / root.* branches give the distribution of layout features.",
 		Exhaustive: true,
 		Gen:        genC16,
 		Run: func(c hx.Case) any {
@@ -1391,6 +1667,8 @@ func init() {
 			"the abstraction of the loaded document (ref texts, RefPath, pointer sharing) that the model of InternalizeRefs runs on is extracted from the real loader when a case is generated and re-derived and compared on every evaluation; the loader itself is C02's subject",
 			"resolved content is compared as an unfolding 8 ref-or-value levels deep; verdicts of request/response validation on 12 fixed bodies × parameter values per operation",
 			"root document paths are clean (no '.', '..' or doubled slashes), as produced by path.Join",
+			"resolved content: discriminator mapping TEXTS are not compared, what each mapping key selects among the oneOf alternatives is; a `$ref` key is the only kind of reference looked for in the serialised document (Link.operationRef and Example.externalValue are not references the loader follows)",
+			"the kernel-checked witness / regression theorems are about the heaps of lean/KinModel/Lemmas/C16Heaps.lean; the driver reports for each tagged corpus case whether the heap extracted from the real loader still is that heap",
 		},
 	})
 }
@@ -1419,7 +1697,7 @@ func genC16(ctx *hx.Ctx, emit func(hx.Case)) {
 				continue
 			}
 			var o any
-			if w.name == "callback-cycle" {
+			if strings.Contains(w.name, "callback-cycle") {
 				o = hx.RunIsolated("C16", c, 20000)
 			} else {
 				o = runC16(c)
@@ -1432,7 +1710,7 @@ func genC16(ctx *hx.Ctx, emit func(hx.Case)) {
 			}
 			continue
 		}
-		c16Emit(emit, w.root, w.files, w.name, w.name == "callback-cycle")
+		c16Emit(emit, w.root, w.files, w.name, strings.Contains(w.name, "callback-cycle"))
 	}
 	if os.Getenv("VERIF_C16_DEBUG") != "" {
 		return
@@ -1460,9 +1738,30 @@ func genC16(ctx *hx.Ctx, emit func(hx.Case)) {
 		}
 	}
 	rec([]int{})
+	// focused layouts: for every feature, all decision tapes (same length) of the reference placed at that position
+	for _, f := range c16Features {
+		f := f
+		var rec2 func(tape []int)
+		rec2 = func(tape []int) {
+			b := &c16B{tape: tape, focus: true, force: f}
+			b.build(2)
+			key := hx.Canon(b.files) + b.root
+			if b.used && !seen[key] {
+				seen[key] = true
+				c16Emit(emit, b.root, b.files, "", f == "cbcycle")
+			}
+			if len(tape) >= L || !b.over {
+				return
+			}
+			for v := 0; v < b.overN; v++ {
+				rec2(append(append([]int{}, tape...), v))
+			}
+		}
+		rec2([]int{})
+	}
 	n := 1500
 	if ctx.Thorough() {
-		n = 20000
+		n = 50000
 	}
 	for i := 0; i < n; i++ {
 		b := &c16B{r: ctx.Rng}
@@ -1493,6 +1792,8 @@ func cmpC16(c hx.Case, impl any, reply map[string]any) hx.Verdict {
 	}
 	if jbool(im, "ipanic") {
 		bad = append(bad, "InternalizeRefs panicked: "+fmt.Sprint(im["panicmsg"]))
+	} else if jbool(im, "cyclic") {
+		bad = append(bad, "the internalised document is an infinite tree (a path item is reached again through callbacks written out in full): MarshalJSON does not terminate")
 	} else if len(bad) == 0 {
 		if !jbool(im, "marshal_ok") {
 			bad = append(bad, "internalised document does not marshal")
@@ -1538,6 +1839,9 @@ func cmpC16(c hx.Case, impl any, reply map[string]any) hx.Verdict {
 	if jbool(im, "heap_mismatch") {
 		md = append(md, "heap abstraction recorded in the case differs from the one re-derived from the loader")
 	}
+	if tw, ok := model["twin"].(bool); ok && !tw {
+		md = append(md, "the heap of this corpus case is no longer the heap the witness/regression theorem is about (lean/KinModel/Lemmas/C16Heaps.lean): regenerate it with tools/c16_heap2lean.py and re-prove")
+	}
 	mp := jstr(model, "outcome")
 	switch {
 	case im["hang"] != nil || im["crash"] != nil:
@@ -1574,6 +1878,9 @@ func cmpC16(c hx.Case, impl any, reply map[string]any) hx.Verdict {
 			}
 			if jbool(model, "specok") != implOK {
 				md = append(md, fmt.Sprintf("model predicts property outcome %v, implementation shows %v (%s)", jbool(model, "specok"), implOK, strings.Join(bad, "; ")))
+			}
+			if jbool(model, "cyclic") != jbool(im, "cyclic") {
+				md = append(md, fmt.Sprintf("infinite tree: model %v, implementation %v", jbool(model, "cyclic"), jbool(im, "cyclic")))
 			}
 		}
 	}
